@@ -41,6 +41,13 @@ func (s *Store) Has(c cid.Cid) bool {
 	return ok
 }
 
+// Put adds a block behind the link system's back (test set-up).
+func (s *Store) Put(c cid.Cid, d []byte) {
+	s.mu.Lock()
+	s.M[c] = d
+	s.mu.Unlock()
+}
+
 func (s *Store) Snapshot() map[cid.Cid][]byte {
 	s.mu.Lock()
 	defer s.mu.Unlock()
